@@ -188,6 +188,20 @@ CHECKS = {
         note=TB + ' Only the 64x64 kernel is proved; the 128/256-bit inplace_transpose_square (intrinsics) and the other kernels are tied '
                   'by the differential sweep whose reference loops live in the harness.',
         design='§4 C20'),
+    'C11': dict(
+        technique='Coq proofs (tableau = phase-exact homomorphism, generated prepend obligations, table inverse/automorphism checks) + '
+                  'recomputation of every algebraic operation and conversion from printed operands',
+        text='Proof: eval_hom (T(PQ)=T(P)T(Q) with phases for any valid tableau of any size), prepend_generated_programs_match_table '
+             '(every Tableau::prepend_* regenerated from source realises the gate table action), table_inverse_is_inverse, '
+             'table_actions_are_automorphisms, A0inv_A0/A0_A0inv. Tie H/O: for random tableaus (sizes straddling 64/128, 3 widths) then, '
+             'inverse, raised_to (negative and huge exponents), operator+, operator(), scatter append/prepend are recomputed from the '
+             'printed rows with the XZ-form Pauli product (cross-checked against the extracted Coq product each run) and validity of '
+             'every result is re-derived; circuit_to_tableau vs the extracted gate action; all four synthesis methods (exact tableau or '
+             'same stabilizer state); Circuit::inverse; unitary-matrix and state-vector round trips (n<=4, both endiannesses); '
+             'stabilizers_to_tableau on valid, redundant, under-constrained, anticommuting and contradictory lists.',
+        note=TB + ' then/inverse/raised_to/scatter and the synthesis algorithms are not modelled in Coq (tied by recomputation); '
+                  'amplitude conversions are float round trips.',
+        design='§4 C11'),
 }
 
 PENDING = 'check not yet built in this round (see DESIGN.md §7 phasing); the Coq model for it is planned, not claimed'
